@@ -346,25 +346,25 @@ where
     type Item = Step;
 
     fn next(&mut self) -> Option<Self::Item> {
-        let (Reverse(w_prev), u) = self.heap.pop()?;
-        let dist_ptr = self.dist.as_mut_ptr();
+        loop {
+            let (Reverse(w_prev), u) = self.heap.pop()?;
+            let dist_ptr = self.dist.as_mut_ptr();
 
-        for (v, w) in self.digraph.out_neighbors_weighted(u) {
-            let w_next = w_prev + w;
-            let dist_v = unsafe { *dist_ptr.add(v) };
+            for (v, w) in self.digraph.out_neighbors_weighted(u) {
+                let w_next = w_prev + w;
+                let dist_v = unsafe { *dist_ptr.add(v) };
 
-            if w_next < dist_v {
-                unsafe { *dist_ptr.add(v) = w_next };
+                if w_next < dist_v {
+                    unsafe { *dist_ptr.add(v) = w_next };
 
-                self.heap.push((Reverse(w_next), v));
+                    self.heap.push((Reverse(w_next), v));
+                }
+            }
+
+            if w_prev == unsafe { *dist_ptr.add(u) } {
+                return Some((u, w_prev));
             }
         }
-
-        if w_prev == unsafe { *dist_ptr.add(u) } {
-            return Some((u, w_prev));
-        }
-
-        None
     }
 }
 
